@@ -26,6 +26,7 @@ fn main() {
     let mut shards = std::thread::available_parallelism().map(|n| n.get()).unwrap_or(8).min(16);
     let mut cases_override = None;
     let mut strict = false;
+    let mut fuzz_input: Option<String> = None;
     let mut root = "/verif".to_string();
     let mut i = 2;
     while i < args.len() {
@@ -55,6 +56,11 @@ fn main() {
                 cases_override = Some(args.get(i).and_then(|s| s.parse().ok()).unwrap_or_else(|| usage()));
             }
             "--strict" => strict = true,
+            "--fuzz-input" => {
+                // evaluates one libFuzzer input file with the non-instrumented build (same decoding as the fuzz target)
+                i += 1;
+                fuzz_input = Some(args.get(i).cloned().unwrap_or_else(|| usage()));
+            }
             "--root" => {
                 i += 1;
                 root = args.get(i).cloned().unwrap_or_else(|| usage());
@@ -62,6 +68,18 @@ fn main() {
             _ => usage(),
         }
         i += 1;
+    }
+    if let Some(path) = fuzz_input {
+        let data = std::fs::read(&path).unwrap_or_else(|e| {
+            eprintln!("HARNESS-ERROR: cannot read {}: {}", path, e);
+            std::process::exit(2)
+        });
+        let mut s = vcheck::fuzzrun::session(&id, &root, strict).unwrap_or_else(|| {
+            eprintln!("HARNESS-ERROR: property {} has no fuzz session", id);
+            std::process::exit(2)
+        });
+        let found = s.one(&data);
+        std::process::exit(if found.is_some() { 1 } else { 0 });
     }
     let opts = RunOptions { tier, seed, shards, verif_root: root, replay, cases_override, strict };
     let code = match id.as_str() {
